@@ -42,6 +42,9 @@ class LU:
         self.product = "%s %d" % (self.product, ident)
         self.log = []          # (name, decoded fields) of every command received
         self.unit_attention = None
+        # world wide names of this logical unit: NAA-6 (company, vendor specific, extension) and NAA-5 (company, 36-bit vendor specific)
+        self.naa6 = (0x589CFC, ident & 0xFFFF, 0xC482A5D4F1E2B3A5 ^ ident)
+        self.naa5 = (0x0050C2, (0xF5A000000 + ident * 0x1234567) & 0xFFFFFFFFF)
 
     # -- helpers
     def vpd_pages(self):
@@ -49,8 +52,9 @@ class LU:
             0x00: lambda: None,
             0x80: lambda: R.vpd_serial(self.dev_type, self.serial),
             0x83: lambda: R.vpd_device_id(self.dev_type, [
-                R.designation_descriptor(1, 0, 3, R.naa6(0x589CFC, self.ident & 0xFFFF, 0xC482A5D4F1E2B3A5 ^ self.ident)),
+                R.designation_descriptor(1, 0, 3, R.naa6(*self.naa6)),
                 R.designation_descriptor(2, 0, 1, R.pad_ascii(self.vendor, 8) + self.serial.encode()),
+                R.designation_descriptor(1, 0, 3, R.be((5 << 60) | (self.naa5[0] << 36) | self.naa5[1], 8)),
                 R.designation_descriptor(1, 1, 4, bytes([0, 0, 0, 1]), piv=1, proto=5),
                 R.designation_descriptor(1, 1, 5, bytes([0, 0, 0, 2]), piv=1, proto=5),
                 R.designation_descriptor(3, 2, 8, b"iqn.2026-10.verif:sim%d\0\0\0" % self.ident, piv=1, proto=5),
@@ -105,6 +109,12 @@ class LU:
             return st
         f = C.decode(name, cdb)
         self.log.append((name, f))
+        if self.unit_attention is not None and name not in ("INQUIRY", "REPORT_LUNS", "REQUEST_SENSE"):
+            # a pending unit attention condition is reported instead of executing the command (SAM-5 5.14), once
+            ua, self.unit_attention = self.unit_attention, None
+            if getattr(self, "d_sense", False):
+                return (S.CHECK_CONDITION, S.descriptor(*ua), b"")
+            return cc(*ua)
         meth = self.handlers.get(name)
         if meth is None:
             return cc(*ILLEGAL_OPCODE)
